@@ -22,7 +22,7 @@ pub fn check_value(v: &RVal, rec: &mut Rec) -> Verdict {
         Ok(b) => b,
         Err(f) => return prefix_sig("C01:zinc-rt", f, &shape(v)),
     };
-    let r = diff_verdict("C01:zinc-rt", v, &project(&back), &text, rec);
+    let r = diff_verdict_strict_zero("C01:zinc-rt", v, &project(&back), &text, rec);
     if r.is_fail() {
         return r;
     }
@@ -37,7 +37,7 @@ pub fn check_value(v: &RVal, rec: &mut Rec) -> Verdict {
         Ok(b) => b,
         Err(f) => return prefix_sig("C01:zinc-rt:in-list", f, &shape(v)),
     };
-    diff_verdict("C01:zinc-rt:in-list", &wrapped, &project(&back2), &text2, rec)
+    diff_verdict_strict_zero("C01:zinc-rt:in-list", &wrapped, &project(&back2), &text2, rec)
 }
 
 pub fn run(ctx: &mut Ctx) {
